@@ -58,7 +58,7 @@ func (g *G) tmpl(withWebhook bool) string {
 		case 2:
 			parts = append(parts, exprPool[t.Pick("expr", len(exprPool))])
 		case 3:
-			if withWebhook || g.P.AllowWebhookAfter {
+			if (withWebhook && !g.P.NoWebhookRefs) || g.P.AllowWebhookAfter {
 				parts = append(parts, webhookRefs[t.Pick("whref", len(webhookRefs))])
 			} else {
 				parts = append(parts, "ok")
